@@ -49,8 +49,7 @@ ANSWERS = ['zero', 'u0', 'u1', 'u2', 'u3', 'seeded']
 
 # ------------------------------------------------------------------ scalar / option spellings
 # A scalar argument (G, NF) is either a plain Python number or ('form', value): the same value as a numpy scalar / 0-d array
-NPFORMS = {'np.int64': np.int64, 'np.int32': np.int32, 'np.float64': np.float64, 'np.float32': np.float32,
-           'np.float16': np.float16, '0d': np.array}
+NPFORMS = {'np.int64': np.int64, 'np.int32': np.int32, 'np.float64': np.float64, 'np.float32': np.float32, '0d': np.array}
 
 
 def arg(spec):
@@ -64,8 +63,8 @@ def val(spec):
 
 
 def seps(spec):
-    """working precision of a scalar spelling: a float16/float32 scalar may legitimately be processed in its own precision"""
-    if isinstance(spec, tuple) and spec[0] in ('np.float32', 'np.float16'):
+    """working precision of a scalar spelling: a float32 scalar may legitimately be processed in its own precision"""
+    if isinstance(spec, tuple) and spec[0] == 'np.float32':
         return float(np.finfo(NPFORMS[spec[0]]).eps)
     return EPS
 
@@ -904,13 +903,14 @@ def lattice_axes(quick):
                    + ['mixed:complex128/float64', 'mixed:complex128/float32', 'mixed:complex128/int8', 'mixed:float64/int64',
                       'mixed:float64/complex128', 'mixed:float32/complex128', 'mixed:int64/float64', 'mixed:complex64/complex128'])
     # G in [0, 40] dB: both limits exactly, one ulp inside, as int / float / numpy scalar / 0-d array; non-integer values
-    ax['G'] = [0, 20, 40, 0.0, 3.0, 40.0, 2.5, 17.3, 5e-324, float(np.nextafter(40.0, 0.0)),
+    # (scalar spellings per the policy of HARDEN_BRIEF: Python int/float/bool, np.int64/int32/float64/float32, 0-d arrays; no 8/16-bit scalars)
+    ax['G'] = [0, 20, 40, 0.0, 3.0, 40.0, 2.5, 17.3, False, True, 5e-324, float(np.nextafter(40.0, 0.0)),
                ('np.int64', 0), ('np.int64', 40), ('np.int32', 3), ('np.float64', 0.0), ('np.float64', 40.0),
-               ('np.float32', 0), ('np.float32', 3), ('np.float32', 40), ('np.float16', 20), ('0d', 0), ('0d', 3.0), ('0d', 40)]
+               ('np.float32', 0), ('np.float32', 3), ('np.float32', 40), ('0d', 0), ('0d', 3.0), ('0d', 40)]
     # NF in [3, 10] dB likewise (the base value 3 is the lower limit as an int)
     ax['NF'] = [5, 10, 3.0, 10.0, 4.77, float(np.nextafter(3.0, 4.0)), float(np.nextafter(10.0, 0.0)),
                 ('np.int64', 3), ('np.int64', 10), ('np.float64', 3.0), ('np.float64', 10.0), ('np.float32', 3), ('np.float32', 10),
-                ('np.float16', 10), ('0d', 3), ('0d', 10.0)]
+                ('0d', 3), ('0d', 10.0)]
     # every documented way to configure the grid, integer and non-integer fs / R, other wavelengths, N set
     ax['gv'] = [(('fs', 16e9), ('wavelength', 1310e-9)), (('fs', 160e9),), (('sps', 16), ('R', 1e9)), (('sps', 8), ('fs', 20e9)),
                 (('R', 2.5e9), ('fs', 40e9)), (('R', 3e9), ('fs', 40e9)), (('sps', 16), ('R', 1e9 / 3)), (('fs', 1e11 / 7),),
@@ -1024,8 +1024,8 @@ def run(ctx):
     cases.sort(key=lambda c: (c[0], c[7] is not None, LAYOUTS.index(c[1]), NKINDS.index(c[2]), order[c[8]], c[3], c[4], -c[5], c[6], c[7] or 0))
     ctx.pmap('scripted', case_scripted, cases, horizon=20)
 
-    done = set(cases)
-    lcases = [c for c in lattice_cases(ctx.quick, seed) if not (c[10] == () and c[:10] in done)]
+    done = set(map(repr, cases))       # by spelling: G=False is not the case G=0
+    lcases = [c for c in lattice_cases(ctx.quick, seed) if not (c[10] == () and repr(c[:10]) in done)]
     ctx.pmap('lattice', case_scripted, lcases, horizon=30)
 
     ctx.pmap('sequence', case_sequence, sequence_cases(ctx.quick, seed), horizon=60)
